@@ -128,7 +128,7 @@ class GenDir:
             elif f == 'pages':
                 out[f] = '1-2'
             elif f == 'doi':
-                out[f] = '10.%s/%s' % (self.token, k)
+                out[f] = '10.%s/%s_x%%y' % (self.token, k)       # DOIs contain characters that are special to LaTeX (_ %% & #)
             elif f == 'isbn':
                 out[f] = v
             else:
